@@ -20,11 +20,15 @@ theorem binop_strict_raw {op : BinOp} {a b : Int} {v : Val} (h : C.binop op a b 
         exact h
   · rw [if_neg hd] at h ⊢; exact h
 
+theorem binopV_strict_raw {op : BinOp} {x y v : Val} (h : C.binopV op x y = .ok v) : C.binopV op x y .raw = .ok v := by
+  cases x <;> cases y <;> simp only [C.binopV] at h ⊢ <;> first | exact binop_strict_raw h | exact h
+
 theorem eval_strict_raw (te : C.TyEnv) (s : Store) (e : Expr) :
     ∀ v, C.eval te s e = .ok v → C.eval te s e .raw = .ok v := by
   induction e with
   | int n => intro v h; rw [C.eval] at h ⊢; exact h
   | bool b => intro v h; rw [C.eval] at h ⊢; exact h
+  | str t => intro v h; rw [C.eval] at h ⊢; exact h
   | var x => intro v h; rw [C.eval] at h ⊢; exact h
   | bin op a b iha ihb =>
     intro v h
@@ -32,7 +36,7 @@ theorem eval_strict_raw (te : C.TyEnv) (s : Store) (e : Expr) :
     obtain ⟨x, hx, h⟩ := bind_ok h
     obtain ⟨y, hy, h⟩ := bind_ok h
     rw [iha x hx, ok_bind, ihb y hy, ok_bind]
-    exact binop_strict_raw h
+    exact binopV_strict_raw h
   | neg a iha =>
     intro v h
     rw [C.eval] at h ⊢
@@ -93,6 +97,11 @@ theorem eval_strict_raw (te : C.TyEnv) (s : Store) (e : Expr) :
     obtain ⟨x, hx, h⟩ := bind_ok h
     obtain ⟨y, hy, h⟩ := bind_ok h
     rw [iha x hx, ok_bind, ihb y hy, ok_bind]; exact h
+  | toStr a iha =>
+    intro v h
+    rw [C.eval] at h ⊢
+    obtain ⟨x, hx, h⟩ := bind_ok h
+    rw [iha x hx, ok_bind]; exact h
 
 theorem declTemps_strict_raw : ∀ (ts : List Ty) (es : List Expr) (k : Nat) (te : C.TyEnv) (s s' : Store),
     C.declTemps te .strict k ts es s = .ok s' → C.declTemps te .raw k ts es s = .ok s'
@@ -135,7 +144,7 @@ theorem exec_strict_raw (f : Nat) :
         obtain ⟨cur, hcur, h⟩ := bind_ok h
         obtain ⟨v, hv, h⟩ := bind_ok h
         obtain ⟨r, hr, h⟩ := bind_ok h
-        rw [eval_strict_raw te _ _ cur hcur, ok_bind, eval_strict_raw te _ e v hv, ok_bind, binop_strict_raw hr, ok_bind]
+        rw [eval_strict_raw te _ _ cur hcur, ok_bind, eval_strict_raw te _ e v hv, ok_bind, binopV_strict_raw hr, ok_bind]
         exact h
       | tuple k xs es => rw [C.exec] at h; cases h
       | ctuple k ts xs es =>
